@@ -1116,14 +1116,20 @@ class SshX509Certificate(ParsableBase, SshHostKeyBase):
             six.raise_from(InvalidValue(parser.unparsed, cls, 'public_key'), e)
 
         public_key = parser['public_key']
-        if host_key_algorithm is None:
+        not_defined_host_key_algorithms = cls._NOT_DEFINED_HOST_KEY_ALGORITHMS_BY_PUBLIC_KEY_TYPE
+        if host_key_algorithm is None or host_key_algorithm in not_defined_host_key_algorithms.values():
             try:
                 public_key_type = public_key.key_type
             except ValueError as e:  # DER structure is not a certificate
                 six.raise_from(InvalidValue(parser.unparsed, cls, 'public_key'), e)
-            host_key_algorithm = cls._NOT_DEFINED_HOST_KEY_ALGORITHMS_BY_PUBLIC_KEY_TYPE.get(public_key_type, None)
+            host_key_algorithm_by_key_type = not_defined_host_key_algorithms.get(public_key_type, None)
             if host_key_algorithm is None:
-                raise InvalidType()
+                host_key_algorithm = host_key_algorithm_by_key_type
+                if host_key_algorithm is None:
+                    raise InvalidType()
+            elif host_key_algorithm != host_key_algorithm_by_key_type:
+                # composed without the algorithm name, which is then inferred from the key type of the certificate
+                raise InvalidValue(host_key_algorithm, cls, 'host_key_algorithm')
 
         return cls(host_key_algorithm, public_key), parser.parsed_length
 
